@@ -349,7 +349,8 @@ def vec_iter(e, args, fr, m):
     return IterV(ref_items(e, args[0]), 0, 'val')
 
 
-@contract(r'^<(?:IntoIter|Iter|IterMut)<.*> as IntoIterator>::into_iter$|^<.*(?:Matches|Enumerate|Map|Split)<.*> as IntoIterator>::into_iter$')
+@contract(r'^<(?:IntoIter|Iter|IterMut)<.*> as IntoIterator>::into_iter$|^<(?:CaptureMatches|SubCaptureMatches|Enumerate|Split)<.*> as IntoIterator>::into_iter$|'
+          r'^<Map<(?:Iter|IntoIter)<.*> as IntoIterator>::into_iter$')
 def iter_into_iter(e, args, fr, m):
     return args[0]
 
@@ -404,6 +405,46 @@ def call_closure(e, fr, clo, argv):
     raise Unsupported('call of %r' % (clo,))
 
 
+def _iter_items(e, it):
+    if not isinstance(it, IterV) or it.kind not in ('val',):
+        raise Unsupported('iterator adaptor on %r' % (getattr(it, 'kind', it),))
+    return it.items[it.pos:]
+
+
+@contract(r'^<.* as Iterator>::(any|all|find|position)::<.*>$')
+def iter_any_all_find(e, args, fr, m):
+    """short-circuiting adaptors: consume the iterator up to and including the deciding element"""
+    it = e.load(args[0])
+    items = _iter_items(e, it)
+    which = m.group(1)
+    for k, x in enumerate(items):
+        r = call_closure(e, fr, args[1], [ValRef(x)] if which == 'find' else [x])
+        hit = e.branch(r)
+        if (which in ('any', 'find', 'position') and hit) or (which == 'all' and not hit):
+            e.store(args[0], IterV(it.items, it.pos + k + 1, it.kind, it.extra))
+            return {'any': True, 'all': False, 'find': some(x), 'position': some(Int(k, 'usize'))}[which]
+    e.store(args[0], IterV(it.items, len(it.items), it.kind, it.extra))
+    return {'any': False, 'all': True, 'find': NONE, 'position': NONE}[which]
+
+
+@contract(r'^<.* as Iterator>::count$')
+def iter_count(e, args, fr, m):
+    it = e.force(args[0])
+    if isinstance(it, IterV) and it.kind == 'filter':
+        n = 0
+        for x in it.items[it.pos:]:
+            if e.branch(call_closure(e, fr, it.extra, [ValRef(x)])):
+                n += 1
+        return Int(n, 'usize')
+    return Int(len(_iter_items(e, it)), 'usize')
+
+
+@contract(r'^<.* as Iterator>::filter::<.*>$')
+def iter_filter(e, args, fr, m):
+    it = e.force(args[0])
+    return IterV(_iter_items(e, it), 0, 'filter', args[1])
+
+
 @contract(r'^<.* as Iterator>::collect::<Vec<.*>>$')
 def iter_collect_vec(e, args, fr, m):
     it = e.force(args[0])
@@ -414,6 +455,8 @@ def iter_collect_vec(e, args, fr, m):
         return VecV([call_closure(e, fr, it.extra, [x]) for x in items])
     if it.kind == 'val':
         return VecV(items)
+    if it.kind == 'filter':
+        return VecV([x for x in items if e.branch(call_closure(e, fr, it.extra, [ValRef(x)]))])
     raise Unsupported('collect of %s iterator' % it.kind)
 
 
@@ -1191,3 +1234,27 @@ def int_wrapping(e, args, fr, m):
             return Int(0, a.ty)
         return r.fields[0]
     return e.binop({'wrapping_add': 'Add', 'wrapping_sub': 'Sub', 'wrapping_mul': 'Mul'}[m.group(2)], a, b)
+
+
+@contract(r'^<\((?:i32|u32|usize|i64|u64)(?:, (?:i32|u32|usize|i64|u64))*,?\) as PartialOrd>::(lt|le|gt|ge)$')
+def tuple_cmp(e, args, fr, m):
+    """lexicographic comparison of integer tuples"""
+    a, b = e.load(args[0]), e.load(args[1])
+    xs, ys = [e.force(x) for x in a.fields], [e.force(y) for y in b.fields]
+    op = m.group(1)
+    # strict part: exists i: prefix equal and x_i < y_i
+    def lt(x, y):
+        return e.binop('Lt', x, y)
+    def eq(x, y):
+        return e.binop('Eq', x, y)
+    if op in ('gt', 'ge'):
+        xs, ys = ys, xs
+    strict = []
+    prefix = True
+    for x, y in zip(xs, ys):
+        strict.append(conj(e, [prefix, lt(x, y)]))
+        prefix = conj(e, [prefix, eq(x, y)])
+    res = disj(strict)
+    if op in ('le', 'ge'):
+        res = disj([res, prefix])
+    return res
